@@ -3,14 +3,14 @@ import re
 from vx.rs import LostAnchor, mask, match_close
 
 
-def map_collect_to_loop(f, u, expect):
-    """R-map-collect (expression form): `E.iter().map(|p| BODY).collect()` (or `into_iter()`) ->
-    `{ let mut coll__k = Vec::new(); for p in E.iter() { coll__k.push(BODY); } coll__k }`:
+def map_collect_to_loop(f, u, expect, recv=r'\w+\s*\.(?:iter|into_iter)\(\)', types=None):
+    """R-map-collect (expression form): `I.map(|p| BODY).collect()` (I = `E.iter()`, `E.into_iter()` or the iterator expression named by `recv`) ->
+    `{ let mut coll__k = Vec::new(); for p in I { let item__ = BODY; coll__k.push(item__); } coll__k }`:
     map + collect into a Vec is the in-order loop of pushes; BODY is no longer a closure, so it may use locals by unique borrow."""
     n = 0
     while True:
         msk = mask(f.text)
-        m = re.search(r'\b(\w+)\s*\.(iter|into_iter)\(\)\s*\.map\(\|(\w+)\|\s*', msk)
+        m = re.search(r'\b(%s)\s*\.map\(\|(\w+)\|\s*' % recv, msk)
         if not m:
             break
         popen = msk.index('(', msk.index('.map', m.start()))
@@ -21,7 +21,9 @@ def map_collect_to_loop(f, u, expect):
         body = f.text[m.end():pclose].strip()
         n += 1
         c = 'coll__%d' % n
-        new = '{ let mut %s = Vec::new(); for %s in %s.%s() { %s.push(%s); } %s }' % (c, m.group(3), m.group(1), m.group(2), c, body, c)
+        ty = ': %s' % types[n - 1] if types else ''    # R-type-annot: ghost code in the invariant needs the element type before rustc has inferred it
+        new = '{\n    let mut %s%s = Vec::new();\n    for %s in %s {\n        let item__ = %s;\n        %s.push(item__);\n    }\n    %s\n}' % (
+            c, ty, m.group(2), ''.join(f.text[m.start(1):m.end(1)].split()), body, c, c)
         f.text = f.text[:m.start()] + new + f.text[pclose + 1 + tail.end():]
         f._rescan()
     if n != expect:
